@@ -204,10 +204,11 @@ func (s *Solver) CheckQuery(asserts []*Term, model Model) Result {
 	t0 := time.Now()
 	errs := s.Errors
 	res, vals := s.run(text, vars)
-	if res == Unknown && s.Errors == errs && !s.noRetry && os.Getenv("GOSYMX_NORETRY") == "" {
+	if res == Unknown && s.Errors == errs && !s.noRetry && s.Retries < 12 && os.Getenv("GOSYMX_NORETRY") == "" {
 		// a plain timeout (no solver error): ask once more with six times the limit in a
 		// fresh process, so that a loaded machine does not turn a decidable query into
-		// an inconclusive run; a second unknown stands
+		// an inconclusive run; a second unknown stands (at most 12 retries per solver
+		// process, so that a run full of genuinely hard queries still ends)
 		lim := s.TimeoutMs * 6
 		if lim > 900000 {
 			lim = 900000
